@@ -38,7 +38,7 @@ fn main() {
             "exec-trace" => props::ros::replay(&v["case"]),
             "uni-case" => props::c06::replay(&v["case"]),
             "ros-case" => props::c07::replay(&v["case"]),
-            "fp-case" => props::c08::replay(&v["case"]),
+            "fp-case" | "fp-slow" | "fp-large" => props::c08::replay(&v["case"]),
             "sbf-case" | "sbf-law" => props::c0910::replay_sbf(&v["case"]),
             "sbf-inverse" => props::c0910::replay_sbf_inverse(&v["case"]),
             "arr-case" | "arr-far" => props::c0910::replay_arr(&v["case"]),
